@@ -25,6 +25,7 @@ use lance_io::traits::Reader;
 use super::{kv, parse_ranges, show_ranges};
 
 #[derive(Clone, Copy, Debug)]
+#[allow(dead_code)]
 struct T {
     id: u64,
     prio: u64,
